@@ -303,7 +303,9 @@ func racingScenarios(thorough bool) []*h.Scn {
 						bounds = append(bounds, 2)
 					}
 					for _, d := range bounds {
-						if d == 2 && len(kinds) == 2 && kinds[0] != "I" {
+						// two deviations where the interruption can race the answer: {I}, {I,N}, {I,I}
+						// issued concurrently, and {I} event-then-answer
+						if d == 2 && (kinds[0] != "I" || mode == "answer-then-event" || (mode == "event-then-answer" && len(kinds) > 1)) {
 							continue
 						}
 						sc := &h.Scn{Name: fmt.Sprintf("C10/%s-race/[%s]/%s/d%d", hostKind, strings.Join(kinds, ","), mode, d), Body: racing(hostKind, kinds, scripts, mode), Opts: verifrt.Options{Bound: d, UseCache: true}}
